@@ -431,10 +431,10 @@ impl Family for AliasGraphs {
 pub struct InheritanceGraphs;
 impl Family for InheritanceGraphs {
     fn name(&self) -> String {
-        "inheritance/all 2^16 base-list assignments over 4 interfaces (incl. self, diamonds)".into()
+        "inheritance/all 2^16 base-list assignments over 4 interfaces (incl. self, diamonds), with an operation each and with empty bodies".into()
     }
     fn len(&self) -> u64 {
-        65536
+        2 * 65536
     }
     fn describe(&self, idx: u64) -> Value {
         json!({"file": self.text(idx)})
@@ -443,6 +443,7 @@ impl Family for InheritanceGraphs {
         let text = self.text(idx);
         let mut out = CaseOut::new(hash_str(&text));
         out.validated = 1;
+        let idx = idx % 65536;
         out.nontrivial = idx != 0;
         let mut adj = vec![vec![false; 4]; 4];
         for i in 0..4 {
@@ -476,13 +477,126 @@ impl Family for InheritanceGraphs {
 }
 impl InheritanceGraphs {
     fn text(&self, idx: u64) -> String {
+        // the second half of the family: empty bodies (nothing but the inheritance loop can make it an error)
+        let with_ops = idx < 65536;
+        let idx = idx % 65536;
         let mut s = String::from("module G\n");
         for i in 0..4 {
             let bases: Vec<String> = (0..4).filter(|j| (idx >> (i * 4 + j)) & 1 == 1).map(|j| format!("I{j}")).collect();
             // distinct operation names: an inherited operation may not be redeclared
-            s.push_str(&format!("interface I{i}{}{} {{ op{i}() }}\n", if bases.is_empty() { "" } else { " : " }, bases.join(", ")));
+            let body = if with_ops { format!("op{i}()") } else { String::new() };
+            s.push_str(&format!("interface I{i}{}{} {{ {body} }}\n", if bases.is_empty() { "" } else { " : " }, bases.join(", ")));
         }
         s
+    }
+}
+
+
+/// All 2^16 containment graphs on the four types M1::P, M1::Q, M2::P, M2::Q (two modules, the same two names in
+/// each; references inside a module are written bare, across modules qualified), kinds and routings by rotation.
+pub struct TwoModules;
+impl TwoModules {
+    fn scoped(i: usize) -> String {
+        format!("M{}::{}", i / 2 + 1, ["P", "Q"][i % 2])
+    }
+    fn render(g: u64) -> Vec<String> {
+        let mut files = vec![String::from("module M1\n"), String::from("module M2\n")];
+        for i in 0..4 {
+            let is_enum = ((g >> (i + 5)) ^ (g >> (3 * i))) & 1 == 1;
+            let mut members = vec![];
+            for j in 0..4 {
+                if (g >> (i * 4 + j)) & 1 == 1 {
+                    let name = if i / 2 == j / 2 { ["P", "Q"][j % 2].to_string() } else { Self::scoped(j) };
+                    let t = route(((g as usize) + i * 3 + j) % ROUTINGS, &name);
+                    members.push(if is_enum { format!("V{j}(f{j}: {t})") } else { format!("f{j}: {t}") });
+                }
+            }
+            let id = ["P", "Q"][i % 2];
+            let def = if is_enum {
+                if members.is_empty() {
+                    members.push("Z".into());
+                }
+                format!("enum {id} {{ {} }}\n", members.join(" "))
+            } else {
+                format!("struct {id} {{ {} }}\n", members.join(" "))
+            };
+            files[i / 2].push_str(&def);
+        }
+        files
+    }
+}
+impl Family for TwoModules {
+    fn name(&self) -> String {
+        "containment/all 65536 graphs on M1::P, M1::Q, M2::P, M2::Q (same names in two modules), kinds and per-edge routings by fixed rotation".into()
+    }
+    fn len(&self) -> u64 {
+        65536
+    }
+    fn describe(&self, idx: u64) -> Value {
+        json!({"files": Self::render(idx)})
+    }
+    fn run(&self, idx: u64) -> CaseOut {
+        let texts = Self::render(idx);
+        let mut out = CaseOut::new(hash_str(&texts.join("\u{0}")));
+        out.validated = 1;
+        out.nontrivial = idx != 0;
+        let mut adj = vec![vec![false; 4]; 4];
+        for i in 0..4 {
+            for j in 0..4 {
+                adj[i][j] = (idx >> (i * 4 + j)) & 1 == 1;
+            }
+        }
+        let r = reach(4, &adj);
+        let on_cycle: Vec<bool> = (0..4).map(|i| r[i][i]).collect();
+        let cyclic = on_cycle.iter().any(|x| *x);
+        let refs: Vec<&str> = texts.iter().map(|s| s.as_str()).collect();
+        let input = || texts.join("--- next file ---\n");
+        let fam = "containment-two-modules";
+        match compile_texts(&refs, None) {
+            Err((loc, msg)) => {
+                out.class = "panic".into();
+                out.violate(format!("c05/{fam}/panic@{loc}"), format!("panic at {loc}: {msg}\n--- input ---\n{}", input()));
+            }
+            Ok((_, _, diags)) => {
+                let e032: Vec<_> = diags.iter().filter(|d| d.code == "E032").collect();
+                out.class = format!("cyclic={cyclic} sccnodes={} reports={}", on_cycle.iter().filter(|x| **x).count(), e032.len());
+                if cyclic && e032.is_empty() {
+                    out.violate(format!("c05/{fam}/cycle-not-diagnosed"), format!("the containment graph has a cycle (on cycles: {:?}) but no infinite-size error was reported; diagnostics: {:?}\n--- input ---\n{}", (0..4).filter(|i| on_cycle[*i]).map(Self::scoped).collect::<Vec<_>>(), diags.iter().map(|d| &d.code).collect::<Vec<_>>(), input()));
+                }
+                if !cyclic && !e032.is_empty() {
+                    out.violate(format!("c05/{fam}/acyclic-diagnosed"), format!("the containment graph is acyclic but E032 was reported: {}\n--- input ---\n{}", e032[0].message, input()));
+                }
+                let mut named = vec![false; 4];
+                for d in &e032 {
+                    let Some((_, chain)) = d.message.split_once(": ") else { continue };
+                    // identifiers of the chain that are scoped names of the four types
+                    let ids: Vec<usize> = chain.split("->").filter_map(|s| (0..4).find(|i| s.trim() == Self::scoped(*i))).collect();
+                    if ids.len() >= 2 && ids.len() == chain.split("->").count() {
+                        let mut ok = ids.first() == ids.last();
+                        for w in ids.windows(2) {
+                            if !adj[w[0]][w[1]] {
+                                ok = false;
+                            }
+                        }
+                        if !ok {
+                            out.violate(format!("c05/{fam}/reported-chain-is-not-a-path"), format!("reported chain {chain:?} is not a closed walk along real field edges\n--- input ---\n{}", input()));
+                        }
+                        for i in ids {
+                            named[i] = true;
+                        }
+                    }
+                }
+                if cyclic && !e032.is_empty() && e032.iter().all(|d| d.message.contains("M1::") || d.message.contains("M2::")) {
+                    for i in 0..4 {
+                        if on_cycle[i] && !named[i] {
+                            out.violate(format!("c05/{fam}/node-on-cycle-not-named"), format!("type {} lies on a cycle but no reported chain names it; reports: {:?}\n--- input ---\n{}", Self::scoped(i), e032.iter().map(|d| &d.message).collect::<Vec<_>>(), input()));
+                            break;
+                        }
+                    }
+                }
+            }
+        }
+        out
     }
 }
 
@@ -497,5 +611,6 @@ pub fn families(tier: &str) -> Vec<Box<dyn Family>> {
         Box::new(PerEdgeRouting),
         Box::new(SmallGraphs { n: 3 }),
         Box::new(FourNodes { all_routings: !quick }),
+        Box::new(TwoModules),
     ]
 }
